@@ -9,8 +9,8 @@ ID = "C16"
 LEVEL = "proof"
 SIDECARS = ["contracts.spacetime"]
 TARGETS = ["SBlock.__init__", "SBlock.add", "Canvas.__init__", "Canvas.create_canvas", "Canvas.__rel_coord", "Canvas.get_space_tuple",
-           "Canvas.get_time_tuple", "Canvas.add_activity", "Graphics.__init__", "Graphics.make_header",
-           "Graphics.make_body"]
+           "Canvas.get_time_tuple", "Canvas.add_activity", "Canvas.display_canvas", "Graphics.__init__", "Graphics.make_header",
+           "Graphics.make_body", "Graphics.make_footer"]
 TECHNIQUE = ("contracts on the graphics translators (stamp and access-point shape of every activity, one activity per "
              "make_body, slip counter advanced once: SMT over constructor-term HiFiber nodes) + structural lemmas on "
              "the call sites + bounded relational check on the real compiler: the text compiled with a spacetime "
